@@ -280,6 +280,40 @@ def rule_ver(ctx) -> None:
                         ok = True
             ctx.check(ok, "C05.VER", f"{fn.qual}/write-bumps-etag@{src(w.ast)[:24]}", fn.loc(w.ast), "every path from this graph write reaches _bump_etag",
                       "a graph write can complete without the etag being re-derived: the T1 cache keeps serving the old propagation", ctx.path_witness(fn, p))
+    # (a') recovery after a partial failure: when an exception can leave a method after a graph write without the bump
+    # (a later element raises), the documented retry (apply_changes re-applies each delta) restores etag == H(content) only
+    # if every normal pass over a recognised element reaches the bump - also when the element changes nothing any more
+    for mname, fn in ctx.prog.methods(STORE).items():
+        cfg = ctx.cfg(fn)
+        writes = [n for n in cfg.nodes if n.kind == "stmt" and isinstance(n.ast, (ast.Assign, ast.AugAssign)) and any(
+            isinstance(t, ast.Subscript) and isinstance(t.value, ast.Attribute) and t.value.attr in ("nodes", "edges") for t in (n.ast.targets if isinstance(n.ast, ast.Assign) else [n.ast.target]))]
+        bumps = [n for n in cfg.nodes if any(call_tail(c) == "_bump_etag" for c in node_calls(n))]
+        if not writes or not bumps:
+            continue
+        partial = cfg.path(writes, lambda x: x is cfg.raise_, avoid=lambda x: x in bumps, include_start=False)
+        if partial is None:
+            ctx.holds("C05.VER", f"{fn.qual}/no-partial-failure", fn.loc(), "no exceptional exit after a graph write skips the etag re-derivation")
+            continue
+        # recognised-element branches: `d.get("op") == "<const>"` (or, without such dispatch, the loop body itself)
+        ops = [n for n in cfg.nodes if n.kind == "cond" and isinstance(n.ast, ast.Compare) and isinstance(n.ast.ops[0], ast.Eq) and const_str(n.ast.comparators[0]) is not None and "op" in src(n.ast.left)]
+        starts = []
+        for o in ops:
+            starts += [t for t, l in o.succ if l == "T"]
+        if not starts:
+            starts = writes
+        gate = [x for x in cfg.nodes if x.kind == "cond" and isinstance(x.ast, ast.Name) and any(cfg.dominates(t, b) for t, l in x.succ if l == "T" for b in bumps)]
+        incs = [m for m in cfg.nodes if m.kind == "stmt" and isinstance(m.ast, ast.AugAssign) and gate and src(m.ast.target) == gate[0].ast.id]
+        heads = [h for h in cfg.nodes if h.kind == "iter"]
+        if gate and incs:
+            # flag-gated bump: an element is counted iff the flag is incremented before the next element / the gate
+            p3 = cfg.path(starts, lambda x: x in heads or x is cfg.exit, avoid=lambda x: x in incs or x in bumps, edge_ok=no_exc, include_start=True)
+        else:
+            p3 = cfg.path(starts, lambda x: x is cfg.exit, avoid=lambda x: x in bumps, edge_ok=no_exc, include_start=True)
+        ctx.check(p3 is None, "C05.VER", f"{fn.qual}/retry-restores-etag", fn.loc(p3[-1].ast) if p3 and p3[-1].ast is not None else fn.loc(),
+                  "a later element can raise after an earlier write (no bump), and every normal pass over a recognised element reaches the etag re-derivation, so the per-delta retry restores etag == H(content)",
+                  "a later element can raise after an earlier graph write without the etag being re-derived, and a recognised element can be processed without reaching the bump (e.g. skipped as 'unchanged'): "
+                  "the per-delta retry after a failed batch then finds the good deltas already in place, never re-derives the etag, and the T1 cache keeps serving the pre-apply propagation",
+                  ctx.path_witness(fn, p3))
     # (b) the etag is content-derived (or at least changes on every bump)
     be = ctx.func(STORE + "._bump_etag")
     loops = [x for x in walk_no_defs(be.node) if isinstance(x, ast.For)]
